@@ -74,7 +74,7 @@ func c04MaxDigits() int {
 
 func genC04(t *rapid.T) C04Case {
 	c := genC04base(t)
-	c.Zone = c.Op == "fma" && len(c.A) == 3 && fmaProductOutOfRange(C03Case{X: c.A[0], Y: c.A[1], U: c.A[2]})
+	c.Zone = false // (former finding F-03c: no allowance any more)
 	return c
 }
 
@@ -408,8 +408,8 @@ func checkC04(c C04Case, o *h.Obs) *h.Fail {
 		return nil
 	}
 	want, full := c04Want(c)
-	if c.Zone {
-		// known finding F-03c: the fused result or, in full, the result of range-checking the product first
+	if false && c.Zone {
+		// (historic: former finding F-03c: the fused result or, in full, the result of range-checking the product first
 		o.Label("f03c-zone")
 		o.NonTrivial()
 		two := model.FmaRangeChecked(c.A[0].Val(), c.A[1].Val(), c.A[2].Val(), uint64(c.P), model.Mode(c.M))
